@@ -568,6 +568,11 @@ class PreludeMixin:
                     st.assume(z3.ForAll([kk], z3.Select(res.t[0], kk) == z3.Select(recv.t[0], kk) + sign * z3.Select(other.t[0], kk),
                                         patterns=[z3.Select(res.t[0], kk)]))
                     return [(st, None, res)]
+        if getattr(k, 'name', None) == 'Any' and meth == 'decode' and not args:
+            # bytes.decode(): the text is a function of the bytes (token to token)
+            f = self.recfuncs.setdefault(('$any_decode',), z3.Function('any_decode', I, I))
+            from core import KAny
+            return [(st, SVal(KAny, [f(recv.z)]), None)]
         if k == KName and meth in ('index', 'find'):
             f = self.recfuncs.setdefault('$name_index', z3.Function('name_index', I, I, I))
             return [(st, SI(f(recv.z, lift(args[0], KName).z)), None)]
